@@ -92,6 +92,9 @@ def run(ctx) -> None:
     t0 = time.time()
     with mp.get_context("fork").Pool(min(16, os.cpu_count() or 4)) as pool:
         for r in pool.imap_unordered(one_case, tasks, chunksize=1):
+            if time.time() > ctx.deadline:
+                pool.terminate()
+                break
             rep.evaluations += len(r["outcomes"])
             for o in r["outcomes"]:
                 rep.bump("e2e_outcome", o)
